@@ -306,6 +306,12 @@ class ParallelBeamGeometry(Geometry):
 
         normal = self.detector.surface_normal(dparam)  # shape (d, ndim)
 
+        # Add leading axes to the array of lower rank to make the parameters
+        # broadcast against each other
+        ndim_diff = (matrix.ndim - 2) - (normal.ndim - 1)
+        matrix = matrix[(None,) * max(-ndim_diff, 0)]
+        normal = normal[(None,) * max(ndim_diff, 0)]
+
         # Perform matrix-vector multiplication along the last axis of both
         # `matrix` and `normal` while "zipping" all axes that do not
         # participate in the matrix-vector product. In other words, the axes
